@@ -213,7 +213,52 @@ def campaign_docstring(ck: Check, n: int) -> None:
 
 
 # ---------------------------------------------------------------- end-to-end planted-string oracle
+# Slots outside the one-object document of `build_doc`: each has its own document shape and a neutral text that is, like
+# the adversarial ones, NOT an identifier (so that aliasing does not make the two runs differ in shape).
+EXTRA_SLOTS = {
+    "discriminator_name": "pet-type",      # oneOf + discriminator: the propertyName (msgspec: `tag_field=` class keyword)
+    "discriminator_key": "neutral-key",    # … the mapping key = const of the property (msgspec: `tag=` class keyword)
+    "td_member_comment": "neutral text",   # TypedDict functional syntax (a key that is no identifier): `# …` comment lines
+    "union_description": "neutral text",   # GraphQL union description: `# …` comment lines
+}
+
+
+def neutral_for(slot: str, s: str = "") -> str:
+    """the neutral text a planted text is compared with; for names and keys it is an identifier exactly when the
+    planted text is one (an identifier needs no alias, so the two documents would legitimately differ in shape)"""
+    if slot in ("discriminator_name", "discriminator_key") and gens.is_plain_identifier(s):
+        return "neutralname"
+    return EXTRA_SLOTS[slot] if slot in EXTRA_SLOTS else gens.neutral(SLOTS.index(slot))
+
+
+def input_type_of(slot: str) -> str:
+    return "graphql" if slot == "union_description" else "jsonschema"
+
+
+def build_extra_doc(slot: str, s: str):
+    if slot in ("discriminator_name", "discriminator_key"):
+        name = s if slot == "discriminator_name" else "kind"
+        k1 = s if slot == "discriminator_key" else "cat"
+        sub = lambda key, other: {"type": "object", "properties": {name: {"const": key}, other: {"type": "string"}}, "required": [name]}  # noqa: E731
+        return {
+            "title": "Model", "type": "object",
+            "properties": {"pet": {"oneOf": [{"$ref": "#/definitions/Cat"}, {"$ref": "#/definitions/Dog"}],
+                                   "discriminator": {"propertyName": name, "mapping": {k1: "#/definitions/Cat", "dog": "#/definitions/Dog"}}}},
+            "definitions": {"Cat": sub(k1, "a"), "Dog": sub("dog", "b")},
+        }
+    if slot == "td_member_comment":
+        return {"title": "Model", "type": "object", "properties": {"user-id": {"type": "string", "description": s}, "plain": {"type": "integer", "description": s}}}
+    if slot == "union_description":
+        import graphql
+
+        lit = graphql.print_ast(graphql.StringValueNode(value=s, block=False))
+        return f"{lit}\nunion U = A | B\ntype A {{ f_x: Int }}\ntype B {{ f_y: Int }}\n"
+    raise KeyError(slot)
+
+
 def build_doc(slot: str, s: str) -> dict:
+    if slot in EXTRA_SLOTS:
+        return build_extra_doc(slot, s)
     n = {k: gens.neutral(i) for i, k in enumerate(SLOTS)}
     v = dict(n)
     v[slot] = s
@@ -288,8 +333,13 @@ def oracle_case(ck: Check, camp, slot: str, s: str, model: str, opts: dict, form
     for c in gens.classify_string(s):
         camp.hit(f"str:{c}")
     inp = {"slot": slot, "string": s, "model": model, "opts": opts, "formatters": formatters}
-    adv = e2e.run_generate(build_doc(slot, s), model=model, opts=opts, formatters=formatters)
-    neu = e2e.run_generate(build_doc(slot, gens.neutral(SLOTS.index(slot))), model=model, opts=opts, formatters=formatters)
+    try:
+        adv_doc, neu_doc = build_doc(slot, s), build_doc(slot, neutral_for(slot, s))
+    except Exception:  # noqa: BLE001 - e.g. a text that GraphQL cannot carry
+        camp.hit("not_expressible")
+        return
+    adv = e2e.run_generate(adv_doc, input_file_type=input_type_of(slot), model=model, opts=opts, formatters=formatters)
+    neu = e2e.run_generate(neu_doc, input_file_type=input_type_of(slot), model=model, opts=opts, formatters=formatters)
     base = {"oracle": "planted_string", "site": slot, "kind": model, "trigger": trigger_of(slot, s)}
     base["rendering"] = rendering_of(slot, s, adv.code)
     if adv.hang:
@@ -306,11 +356,33 @@ def oracle_case(ck: Check, camp, slot: str, s: str, model: str, opts: dict, form
     if err:
         ck.fail({**base, "mechanism": "unparsable"}, inp, f"emitted module does not parse: {err}")
         return
+    n = neutral_for(slot, s)
+    if slot in ("discriminator_name", "discriminator_key") and e2e.skeleton(adv.code) != e2e.skeleton(neu.code):
+        # whether a name is kept or replaced by a sanitised one plus alias is the generator's decision (C07): the shape must
+        # be that of ONE of the two neutral documents — a name that is kept, a name that needs an alias
+        other = EXTRA_SLOTS[slot] if n == "neutralname" else "neutralname"
+        alt = e2e.run_generate(build_doc(slot, other), input_file_type=input_type_of(slot), model=model, opts=opts, formatters=formatters)
+        if alt.ok and e2e.skeleton(adv.code) == e2e.skeleton(alt.code):
+            neu, n = alt, other
     if slot != "member_name" and e2e.skeleton(adv.code) != e2e.skeleton(neu.code):
         ck.fail({**base, "mechanism": "structure"}, inp, "AST shape differs from the run with neutral text in the same slot")
         return
-    n = gens.neutral(SLOTS.index(slot))
     cn, ca = e2e.string_constants(neu.code), e2e.string_constants(adv.code)
+    if slot in ("td_member_comment", "union_description"):
+        # comment slots: the text must be inside `#` comments — nothing of it may be a token of the module
+        import io
+        import tokenize
+
+        def comments(code: str) -> str:
+            return "\n".join(t.string[1:].strip() for t in tokenize.generate_tokens(io.StringIO(code).readline) if t.type == tokenize.COMMENT)
+
+        if norm_ws(n) in norm_ws(comments(neu.code)):
+            want = norm_ws(s.replace("\0", "\\x00"))
+            if want not in norm_ws(comments(adv.code)):
+                ck.fail({**base, "mechanism": "comment_mismatch"}, inp, f"planted {s!r} is not (all) inside the comments: {comments(adv.code)[:200]!r}")
+        else:
+            camp.hit("slot_not_rendered")
+        return
     if slot == "member_name":
         # the original name is either the identifier itself or kept verbatim as alias/key
         names = {x.id for x in ast.walk(ast.parse(adv.code)) if isinstance(x, ast.Name)} | {
@@ -366,8 +438,27 @@ def campaign_e2e(ck: Check, n: int) -> None:
         if fm == "default" and rng.chance(1, 2):
             opts["use_double_quotes"] = True
         oracle_case(ck, camp, slot, s, model, opts, fm)
+    # slots with their own document shape (discriminator name / key, comment lines); after the loop above, whose
+    # random stream stays what it was
+    rng2 = ck.rng.fork("e2e-extra")
+    for slot in EXTRA_SLOTS:
+        for model in e2e.MODEL_KINDS:
+            for s in EXTRA_TEXTS + [gens.adversarial(rng2, 5) + "q" for _ in range(2 if n <= 400 else 12)]:
+                oracle_case(ck, camp, slot, s, model, {"use_schema_description": True, "use_field_description": True}, None)
+    for s in PATTERN_TEXTS:
+        for model in ("pydantic.BaseModel", "pydantic_v2.BaseModel"):
+            for o in ({}, {"field_constraints": True}):
+                oracle_case(ck, camp, "pattern", s, model, dict(o), None)
     camp.wall_s = time.time() - t0
 
+
+# texts for the extra slots: quote / backslash (a name or key between hand-written quotes), lone CR and the other
+# line boundaries of str.splitlines (comment lines)
+EXTRA_TEXTS = ["it's", "kind', frozen=True, rename='lower", "back\\slash", "two\rlines", "a\x0bb\x0cc\x1cd\x85e\u2028f", "x\r\ny\nz"]
+
+# regex patterns that contain both kinds of quote, end in quotes, or combine a backslash with a quote: whatever
+# delimiter a raw literal is given, one of them collides with it
+PATTERN_TEXTS = ['"[^"]*"|\'[^\']*\'', '"[^"]*"|\'\'', "a'b\"c", "a\\'b\"", "'" * 3 + '"', '\\"\'', "x'", 'x"', "x" + "'" * 3]
 
 CORPUS = [
     ("enum", "a'b\\c\nd", "pydantic_v2.BaseModel", {}),
@@ -418,6 +509,18 @@ def run(ck: Check) -> None:
     quick = ck.tier == "quick"
     ck.translate("EscTables", esc.generate())
     ck.translate("Templates", templates.generate())
+    # the templates themselves (jinja2's own parse) for the Lean lexical analysis: template_lexically_closed,
+    # python_site_table_is_lean_analysis are re-checked by the kernel against the sources of this run
+    from ..translate import template_ast
+    from . import tpl_campaign
+
+    ck.translate("TemplateAst", template_ast.generate())
+    from ..translate import code_sites
+
+    ck.translate("CodeSites", code_sites.generate())
+    from . import tpl_search
+
+    ck.search_hooks.append(tpl_search.search_c10)
     ck.prove()
     ck.assumptions += [
         "CPython's lexer is modelled by Dcg/Py/Lex.lean (validated in this run against tokenize+literal_eval)",
@@ -425,11 +528,18 @@ def run(ck: Check) -> None:
         "lone surrogates are outside the string domain",
         "intended code slots (decorators, methods, --extra-template-data, custom base class, default_factory) are out of scope",
     ]
+    ck.assumptions += [
+        "template_lexically_closed: Jinja2 semantics are those of the interpreter Dcg/Model/Template (validated against the real "
+        "templates on every run in C01); every interpolated value is assumed lexically neutral for the reviewed class of its site "
+        "(discharged in Lean for values of plain characters; for repr/escape-table/docstring values by the literal theorems above, "
+        "un-indented); the statement is about the final lexical state, the per-site state sets are those of the same sound analysis",
+    ]
     campaign_lex(ck, 3000 if quick else 40000)
     campaign_translate(ck, 600 if quick else 6000)
     campaign_docstring(ck, 800 if quick else 10000)
     campaign_pattern(ck, 1000 if quick else 15000)
     campaign_e2e(ck, 400 if quick else 6000)
+    tpl_campaign.campaign_lex_auto(ck, 600 if quick else 6000)  # last: the older campaigns keep their random streams
     ck.search_hooks.append(search_bad_table_char)
     known_findings(ck)
 
